@@ -21,6 +21,22 @@ var (
 )
 
 func pow2(n uint) *big.Int   { return new(big.Int).Lsh(bigOne, n) }
+
+// ratPow2Tab[k] = 2^k as a shared, read-only rational.
+var ratPow2Tab = func() []*big.Rat {
+	t := make([]*big.Rat, 600)
+	for i := range t {
+		t[i] = new(big.Rat).SetInt(new(big.Int).Lsh(bigOne, uint(i)))
+	}
+	return t
+}()
+
+func ratPow2(k uint) *big.Rat {
+	if int(k) < len(ratPow2Tab) {
+		return ratPow2Tab[k]
+	}
+	return new(big.Rat).SetInt(pow2(k))
+}
 func pow2m1(n uint) *big.Int { return new(big.Int).Sub(pow2(n), bigOne) }
 
 func itvOf(lo, hi int64) Itv    { return Itv{big.NewInt(lo), big.NewInt(hi)} }
@@ -197,7 +213,7 @@ func (f *Form) Scale(s *big.Rat) *Form {
 func (f *Form) ScaleInt(n *big.Int) *Form { return f.Scale(new(big.Rat).SetInt(n)) }
 
 // Shl returns 2^k * f.
-func (f *Form) Shl(k uint) *Form { return f.ScaleInt(pow2(k)) }
+func (f *Form) Shl(k uint) *Form { return f.Scale(ratPow2(k)) }
 
 // Equal reports syntactic (hence semantic) equality.
 func (f *Form) Equal(g *Form) bool {
@@ -295,7 +311,7 @@ func (l *layout) form() *Form {
 		case cell == layOne:
 			c.SetBit(c, i, 1)
 		default:
-			ts = append(ts, term{int(cell - 1), new(big.Rat).SetInt(pow2(uint(i)))})
+			ts = append(ts, term{int(cell - 1), ratPow2(uint(i))})
 		}
 	}
 	sort.Slice(ts, func(i, j int) bool { return ts[i].v < ts[j].v })
